@@ -113,6 +113,7 @@ def run(ctx):
     sexp_hyp_bad = 0
     anon_hyp_bad = 0
     stack_bad = 0
+    hidden_extra_bad = 0
     hidden_missing_trees = 0
     per_clause = {}
     max_fanout = 0
@@ -134,6 +135,8 @@ def run(ctx):
         if kv.get("anonleafok", "1") != "1":
             anon_hyp_bad += 1
         stack_bad += int(kv.get("stackbad", "0") or 0)
+        if kv.get("hiddenextraok", "1") != "1":
+            hidden_extra_bad += 1
         if kv.get("hiddenmissing", "0") == "1":
             hidden_missing_trees += 1
         fan = int(kv.get("fanout", "0") or 0)
@@ -177,6 +180,7 @@ def run(ctx):
                "reported by the judge)", sexp_hyp_bad == 0, "%d trees" % sexp_hyp_bad)
     ctx.oblige("corr:anonLeafOK-holds-on-real-trees(hypothesis of named_child_spec)", anon_hyp_bad == 0, "%d trees" % anon_hyp_bad)
     ctx.oblige("corr:StackOK-linkage-holds-on-every-cursor-stack(hypothesis of cursor_next_sibling_spec)", stack_bad == 0, "%d stacks" % stack_bad)
+    ctx.oblige("corr:hiddenExtraOK-holds-on-real-trees(hypothesis of field_name_for_child_spec)", hidden_extra_bad == 0, "%d trees" % hidden_extra_bad)
     ctx.coverage["trees_with_hidden_missing_node"] = hidden_missing_trees
     ctx.coverage.update({
         "evaluations": evals, "distinct_nontrivial": len(distinct),
